@@ -182,7 +182,8 @@ def run(tape, scenario):
     if kind == "dict" and fmt == "x":
         fmt = "q"
     amount_kind = tape.pick("c06/amount", ["small", "large", "register", "expr", "var",
-                                            "packet"] + (["float"] if fmt == "x" else []))
+                                            "packet"] + (["float"] if fmt == "x" else [])
+                            + (["staging", "staging"] if kind == "dict" else []))
     sub_op = tape.chance("c06/minus", 35)
     ninst = 2 + tape.draw("c06/ninst", 2)
     mask = (1 << (8 * w)) - 1
@@ -245,6 +246,13 @@ def run(tape, scenario):
             return p.r3 * 3 + 7, lambda i: regval * 3 + 7
         if amount_kind == "var":
             return p.other, lambda i: varval
+        if amount_kind == "staging":
+            # the upsert idiom: the entry found is increased by what the program has put
+            # into the Dict's own (stack) copy of the value
+            # (written in one statement, value.count += self.table.value.count: the
+            # amount is only looked at after the target has been)
+            p.table.value.count = small
+            return (lambda: p.table.value.count), lambda i: small
         p.r3 = p.pI[20]
         return p.r3, lambda i: pkt_amounts[i]
 
@@ -264,12 +272,30 @@ def run(tape, scenario):
     cond_prefix = kind == "array" and amount_kind in ("small", "large") \
         and tape.chance("c06/add-after-conditional-add", 35)
     cond_threshold = 1 << 29
+    # the amount is a constant chosen by a branch, and in one branch it is 0 (a configured
+    # penalty that happens to be nothing): instances that take different branches race
+    zero_branch = kind in ("array", "subprog") and amount_kind in ("small", "large") \
+        and not cond_prefix and tape.chance("c06/zero-amount-in-one-branch", 30)
+
+    def branch_on_packet(p, target_iadd_of, a):
+        with p.pI[20] > cond_threshold as Else:
+            target_iadd_of(a)
+        with Else:
+            target_iadd_of(0)
+        fn = amount_fn[0]
+        amount_fn[0] = lambda i: fn(i) if pkt_amounts[i] > cond_threshold else 0
     # program types other than XDP can be interrupted by another instance on the same CPU
     # (a perf event in NMI context): then even a per-CPU variable sees interleaved updates
     same_cpu = kind == "percpu" and tape.chance("c06/instances-nested-on-one-cpu", 40)
 
     def program(self):
         if kind in ("array",):
+            def plain(a):
+                if sub_op:
+                    self.target -= a
+                else:
+                    self.target += a
+
             def iadd(a):
                 if cond_prefix:
                     with self.pI[20] > cond_threshold:
@@ -277,10 +303,9 @@ def run(tape, scenario):
                             self.target2 -= a
                         else:
                             self.target2 += a
-                if sub_op:
-                    self.target -= a
-                else:
-                    self.target += a
+                if zero_branch:
+                    return branch_on_packet(self, plain, a)
+                plain(a)
             statements(self, None, iadd)
         elif kind == "mapptr":
             off = type(self).__dict__["target"]
@@ -322,7 +347,12 @@ def run(tape, scenario):
             self.table.key.k = 3
             with self.table.lookup() as (value, Else):
                 def iadd(a):
-                    if sub_op:
+                    if callable(a):
+                        if sub_op:
+                            value.count -= a()
+                        else:
+                            value.count += a()
+                    elif sub_op:
                         value.count -= a
                     else:
                         value.count += a
@@ -333,11 +363,16 @@ def run(tape, scenario):
     def sub_program(self):
         p = self.ebpf
 
-        def iadd(a):
+        def plain(a):
             if sub_op:
                 self.target -= a
             else:
                 self.target += a
+
+        def iadd(a):
+            if zero_branch:
+                return branch_on_packet(p, plain, a)
+            plain(a)
         statements(p, None, iadd)
     Sub.program = sub_program
 
@@ -351,6 +386,8 @@ def run(tape, scenario):
             violations.append({"rule": rule, "params": params, "detail": detail})
 
     params = dict(fmt=fmt, kind=kind, amount=amount_kind, minus=sub_op)
+    if zero_branch:
+        params["zero_branch"] = True
     sched = []
     interleaved = False
     raw = b""
